@@ -26,7 +26,8 @@ PtAt(a, b, x) == VAdd(VScale(x[2], a), VScale(x[1], b))
 \* harmonic conjugate of x3 with respect to x1, x2
 Harm(x1, x2, x3) == LET p == VSub(VScale(Br(x3, x2), x1), VScale(Br(x1, x3), x2)) IN Primitive(p)
 
-Quads == {q \in [1..4 -> Params] : Cardinality({q[1], q[2], q[3], q[4]}) >= 3 /\ q[1] # q[2] /\ q[3] # q[4]}
+\* at least three distinct parameters and c # d; a = b is allowed (the cross ratio is then 1)
+Quads == {q \in [1..4 -> Params] : Cardinality({q[1], q[2], q[3], q[4]}) >= 3 /\ q[3] # q[4]}
 \* carrier lines: <<a, b>> with a finite
 Carriers2 == {<< <<0,0,1>>, <<1,0,0>> >>, << <<1,2,1>>, <<1,1,0>> >>, << <<0,1,1>>, <<2,-1,1>> >>, << <<-1,1,1>>, <<0,1,0>> >>,
               << <<2,0,1>>, <<-1,3,1>> >>, << <<1,1,2>>, <<3,-1,2>> >>}
